@@ -81,10 +81,10 @@ def build_texelutil():
 
 # ---------------------------------------------------------------- games
 class Game:
-    __slots__ = ("moves", "flags", "fens", "mode", "seed", "want")
+    __slots__ = ("moves", "flags", "fens", "mode", "seed", "want", "minmen")
 
-    def __init__(self, moves, flags, mode, seed, want):
-        self.moves, self.flags, self.mode, self.seed, self.want = moves, flags, mode, seed, want
+    def __init__(self, moves, flags, mode, seed, want, minmen=MIN_MEN):
+        self.moves, self.flags, self.mode, self.seed, self.want, self.minmen = moves, flags, mode, seed, want, minmen
         self.fens = None
 
     @property
@@ -96,7 +96,8 @@ def gen_games(ctx, harness, n):
     rng = ctx.rng
     cmds, meta = [], []
     for i in range(n):
-        mode = rng.choice([0, 0, 1, 1, 1, 2, 2, 3, 3, 4, 5, 5])
+        # 6/7 = directed at the proof-kernel search (promotions by capture / straight, file-changing pawns, ...)
+        mode = rng.choice([0, 0, 1, 1, 1, 2, 2, 3, 3, 4, 5, 5, 6, 6, 6, 6, 7, 7, 7])
         r = rng.random()
         if r < 0.15:
             plies = rng.randint(1, 12)
@@ -106,21 +107,27 @@ def gen_games(ctx, harness, n):
             plies = rng.randint(40, 150)
         if mode == 1 and plies < 50:
             plies += 50                                   # promotions need time
+        minmen = MIN_MEN
+        if mode in (6, 7):
+            plies = rng.randint(16, 110)
+            # few captures allowed (27..29 men): the kernel cannot dodge a capture-promotion by an earlier file change;
+            # a smaller share with fewer men (deeper kernel search, larger time limit)
+            minmen = rng.choice([26, 26, 26, 27, 28, 28, 29, 22])
         seed = rng.getrandbits(48)
-        cmds.append("GAME %d %d %d %d" % (seed, plies, MIN_MEN, mode))
-        meta.append((mode, seed, plies))
+        cmds.append("GAME %d %d %d %d" % (seed, plies, minmen, mode))
+        meta.append((mode, seed, plies, minmen))
     rc, out, err = sh([harness], input="\n".join(cmds) + "\n", timeout=600)
     if rc != 0:
         raise RuntimeError("pg_harness GAME failed: %s" % err[-500:])
     games = []
-    for line, (mode, seed, plies) in zip(out.strip().split("\n"), meta):
+    for line, (mode, seed, plies, minmen) in zip(out.strip().split("\n"), meta):
         head, _, mv = line.partition("|")
         t = head.split()
         moves = mv.split()
         if t[0] != "G" or int(t[1]) != len(moves):
             raise RuntimeError("bad GAME line: " + line[:200])
         if moves:
-            games.append(Game(moves, t[2], mode, seed, plies))
+            games.append(Game(moves, t[2], mode, seed, plies, minmen))
     # prefix FENs
     rc, out, err = sh([harness], input="".join("FENS | %s\n" % " ".join(g.moves) for g in games), timeout=600)
     if rc != 0:
@@ -166,6 +173,82 @@ def ep_capture_indices(g):
             if b.get(sq_idx(m[:2]), "").lower() == "p" and sq_idx(m[2:4]) not in b:
                 res.add(i)
     return res
+
+
+def template_games(rng, n):
+    """Constructed legal games (validated afterwards by the engine's MoveGen) in which the proof kernel is forced:
+    all castling rights kept (e1/e8 and the corners blocked, no promotion from the d/f files), c/g pawns unmoved, exactly as
+    many captures as needed, and both sides promote an e-file pawn by capturing on d8/f8 resp. d1/f1 - in the seed shape
+    (white knight takes e5, black's d-pawn takes a piece on e2) and its colour-mirrored shape, with different deposited
+    pieces, capture squares, promotion pieces, tempo moves and trailing quiet moves."""
+    out = []
+    for _ in range(n):
+        pw, pb = rng.choice("nb"), rng.choice("nb")
+        mirrored = rng.random() < 0.5
+        dep = rng.choice("BQ")                       # the piece put en prise on e2 (e7 in the mirrored shape)
+        if not mirrored:
+            tempo = rng.choice([["a7a6", "a6a5", "a5a4"], ["h7h6", "h6h5", "h5h4"], ["a7a6", "h7h6", "h6h5"], ["b8a6", "a6b8", "b8a6"]])
+            wt = rng.choice(["d8", "f8"])
+            bt = "d1" if dep == "B" else "f1"
+            mv = ["e2e4", "e7e5", "g1f3", "d7d5", "f3e5", "d5d4", "e5c4", "d4d3", "f1e2" if dep == "B" else "d1e2", "d3e2",
+                  "e4e5", tempo[0], "e5e6", tempo[1], "e6e7", tempo[2], "e7" + wt + pw, "e2" + bt + pb]
+        else:
+            t0 = rng.choice(["a2a3", "h2h3"])
+            tempo = {"a2a3": ["a3a4", "a4a5"], "h2h3": ["h3h4", "h4h5"]}[t0]
+            wt = "d8" if dep == "B" else "f8"
+            bt = rng.choice(["d1", "f1"])
+            mv = [t0, "e7e5", "e2e4", "g8f6", "d2d4", "f6e4", "d4d5", "e4c5", "d5d6", "f8e7" if dep == "B" else "d8e7", "d6e7",
+                  "e5e4", tempo[0], "e4e3", tempo[1], "e3e2", "e7" + wt + pw, "e2" + bt + pb]
+        # trailing quiet moves (a game whose script turns out illegal is dropped by the validation)
+        wq = ["b1c3", "b2b3", "g2g3"] + ([] if mirrored else ["c4e3", "c4a3"])
+        bq = ["b7b6", "g7g6"] + (["c5e6", "b8c6"] if mirrored else ["g8h6"])
+        rng.shuffle(wq)
+        rng.shuffle(bq)
+        for k in range(rng.choice([0, 0, 1, 2])):
+            mv += [wq[k], bq[k]]
+        out.append(mv)
+    return out
+
+
+def game_stats(g):
+    """what the game contains, in the terms of the proof-kernel search's case splits"""
+    st = {"prom_w": 0, "prom_b": 0, "capprom_w": 0, "capprom_b": 0, "under": 0, "pxp": 0, "pxpiece": 0, "piecexp": 0,
+          "piecexpiece": 0, "bishop_home": 0}
+    for i, m in enumerate(g.moves):
+        b = board_map(g.fens[i])
+        mover = b.get(sq_idx(m[:2]), "?")
+        victim = b.get(sq_idx(m[2:4]))
+        white = mover.isupper()
+        is_pawn = mover.lower() == "p"
+        if is_pawn and m[0] != m[2] and victim is None:
+            victim = "p" if white else "P"                 # en passant
+        if len(m) == 5:
+            st["prom_w" if white else "prom_b"] += 1
+            if m[4] != "q":
+                st["under"] += 1
+            if m[0] != m[2]:
+                st["capprom_w" if white else "capprom_b"] += 1
+        if victim is not None:
+            vp = victim.lower() == "p"
+            st["pxp" if is_pawn and vp else "pxpiece" if is_pawn else "piecexp" if vp else "piecexpiece"] += 1
+            if victim.lower() == "b" and m[2:4] in ("c1", "f1", "c8", "f8"):
+                st["bishop_home"] += 1
+    fb = board_map(g.goal)
+    for white in (True, False):
+        pawn = "P" if white else "p"
+        files = [0] * 8
+        dark = light = 0
+        for sq, pc in fb.items():
+            if pc == pawn:
+                files[sq % 8] += 1
+            if pc == ("B" if white else "b"):
+                if (sq % 8 + sq // 8) % 2 == 0:
+                    dark += 1
+                else:
+                    light += 1
+        st["maxfile_" + ("w" if white else "b")] = max(files)
+        st["bishop_imbalance_" + ("w" if white else "b")] = int(dark != light)
+    return st
 
 
 def fen4(fen):
@@ -354,7 +437,8 @@ def board_of_fen(fen):
 # ---------------------------------------------------------------- the check
 def run(ctx):
     ctx.rule = ("random legal games from the initial position (engine MoveGen; modes: uniform, pawn storm/promotions, castling kept, "
-                "e.p.-seeking, rights-losing, ending on a check), 1..150 plies, captures refused below 26 men; the final position (and "
+                "e.p.-seeking, rights-losing, ending on a check, and two modes directed at the proof-kernel search: cooperative promotions by "
+                "capture and straight incl. under-promotions, file-changing pawns, pieces fed to pawns, bishops taken at home, with/without all castling rights), 1..150 plies, captures refused below 26 men (22 for a share of the directed games); the final position (and "
                 "sampled prefix positions) go through the real `texelutil proofgame -f` (first stage) and, for a subset, the iterated "
                 "`-f -o` mode up to a proof game; per game: distLowerBound(prefix -> final) for every prefix vs the game's own remaining "
                 "length, blocked squares vs the game's own next move, forced last moves vs the game's own last moves; non-trivial = a "
@@ -442,6 +526,14 @@ def run(ctx):
                 g.fens = [l.split(" ", 2)[2] for l in b.strip().split("\n") if l.startswith("P ")]
             games = [g for g in games if g.fens and len(g.fens) == len(g.moves) + 1]
         ctx.count("corpus_games", len(games))
+    tgames = [Game(mv, "-", 8, 0, 0) for mv in template_games(rng, ctx.scale(30, 300))]
+    rc, out, err = sh([harness], input="".join("FENS | %s\n" % " ".join(g.moves) for g in tgames), timeout=600)
+    for g, b in zip(tgames, out.split("END\n")):
+        g.fens = [l.split(" ", 2)[2] for l in b.strip().split("\n") if l.startswith("P ")]
+    ctx.count("template_games_generated", len(tgames))
+    tgames = [g for g in tgames if g.fens and len(g.fens) == len(g.moves) + 1]
+    ctx.count("template_games_legal", len(tgames))
+    games += tgames
     games += gen_games(ctx, harness, n_games)
     seen = set()
     uniq = []
@@ -463,6 +555,31 @@ def run(ctx):
             ctx.nontrivial(fen4(g.goal))
         men = sum(1 for c in g.goal.split()[0] if c.isalpha())
         ctx.count("final_men_%d" % men)
+        st = game_stats(g)
+        nprom = st["prom_w"] + st["prom_b"]
+        ncp = st["capprom_w"] + st["capprom_b"]
+        ctx.count("final_promotions_%s" % ("2plus" if nprom >= 2 else nprom))
+        ctx.count("final_capture_promotions_%s" % ("2plus" if ncp >= 2 else ncp))
+        if st["prom_w"] and st["prom_b"]:
+            ctx.count("final_both_sides_promoted")
+        if st["capprom_w"] and st["capprom_b"]:
+            ctx.count("final_both_sides_capture_promoted")
+        if max(st["prom_w"], st["prom_b"]) >= 2:
+            ctx.count("final_one_side_2plus_promotions")
+        if st["under"]:
+            ctx.count("final_with_underpromotion")
+        for k in ("pxp", "pxpiece", "piecexp", "piecexpiece", "bishop_home"):
+            ctx.count("captures_" + k, st[k])
+        if st["bishop_home"]:
+            ctx.count("final_bishop_captured_on_home_square")
+        if st["bishop_imbalance_w"] or st["bishop_imbalance_b"]:
+            ctx.count("final_dark_light_bishop_imbalance")
+        if max(st["maxfile_w"], st["maxfile_b"]) >= 2:
+            ctx.count("final_doubled_pawns")
+        if max(st["maxfile_w"], st["maxfile_b"]) >= 3:
+            ctx.count("final_tripled_pawns")
+        if men < MIN_MEN:
+            ctx.count("final_below_26_men")
     ctx.count("games", len(games))
     ctx.count("plies_total", sum(len(g.moves) for g in games))
 
@@ -608,7 +725,13 @@ def run(ctx):
                     ctx.count("lastmoves_forced_moves", k)
                     forced = l.partition("|")[2].split()
                     red_goal = " ".join(t[2:6])
-                    if k > n or forced != g.moves[n - k:] or red_goal != fen4(g.fens[n - k]):
+                    # the predecessor is determined up to an en-passant right that was not used (the analysis calls the
+                    # reverse move generator with includeAllEpSquares=false)
+                    pred = fen4(g.fens[n - k]) if k <= n else ""
+                    same_pred = red_goal == pred or (red_goal.split()[:3] == pred.split()[:3] and red_goal.split()[3] == "-")
+                    if not same_pred and k <= n:
+                        ctx.count("lastmoves_predecessor_differs")
+                    if k > n or forced != g.moves[n - k:] or not same_pred:
                         problems.append(("last-move analysis: moves declared forced differ from the game's own last moves (the real predecessor was rejected)",
                                          {"moves": g.moves, "goal": g.goal, "forced_by_tool": forced, "actual_last": g.moves[max(0, n - k):],
                                           "reduced_goal_by_tool": red_goal, "actual_predecessor": fen4(g.fens[max(0, n - k)])},
@@ -630,14 +753,23 @@ def run(ctx):
                 light.append((gi, rng.randrange(1, n)))
     light = list(dict((fen4(games[gi].fens[i]), (gi, i)) for gi, i in light).values())
     per_pos = ctx.scale(4, 120)
-    chunks = [light[i::NCPU * 3] for i in range(NCPU * 3)]
-    chunks = [c for c in chunks if c]
+
+    def men_of(fen):
+        return sum(1 for c in fen.split()[0] if c.isalpha())
+    low = [x for x in light if men_of(games[x[0]].fens[x[1]]) < MIN_MEN]
+    light = [x for x in light if men_of(games[x[0]].fens[x[1]]) >= MIN_MEN] + low      # low-men positions last
+    nl = len(light) - len(low)
+    chunks = [light[:nl][i::NCPU * 3] for i in range(NCPU * 3)] + [low[i::NCPU] for i in range(NCPU)]
+    chunk_low = [False] * (NCPU * 3) + [True] * NCPU
+    keep = [i for i, c in enumerate(chunks) if c]
+    chunks, chunk_low = [chunks[i] for i in keep], [chunk_low[i] for i in keep]
     variants = [(), ("-rndkernel", "-rnd", str(rng.randrange(1, 1 << 30)))]
 
     def light_run(ci_chunk):
         ci, ch = ci_chunk
-        rnd = ci % 4 == 3
-        return run_filter_batch(tool, [games[gi].fens[i] for gi, i in ch], per_pos / 2 if rnd else per_pos, extra=variants[1 if rnd else 0])
+        rnd = ci % 4 == 3 and not chunk_low[ci]
+        lim = per_pos * 3 if chunk_low[ci] else per_pos / 2 if rnd else per_pos
+        return run_filter_batch(tool, [games[gi].fens[i] for gi, i in ch], lim, extra=variants[1 if rnd else 0])
     light_res = list(pool.map(light_run, list(enumerate(chunks))))
     illegal_cases = []
     stage1_proofs = []
@@ -647,7 +779,22 @@ def run(ctx):
             kind = verdict_kind(data)
             ctx.count("stage1_" + (kind if data is not None else ("timeout" if note == "timeout" else "crash")))
             if data is None and note == "timeout":
-                ctx.count("stage1_timeout_" + ("rndkernel_variant" if ci % 4 == 3 else "default_order"))
+                ctx.count("stage1_timeout_" + ("below_26_men" if chunk_low[ci] else "rndkernel_variant" if ci % 4 == 3 else "default_order"))
+            if data is not None and "kernel" in data:
+                # which kernel-search stages actually ran for this position
+                k = data["kernel"]
+                ctx.count("stage1_proof_kernel_search_ran")
+                ctx.count("stage1_proof_kernel_moves_%s" % (len(k) if len(k) < 7 else "7plus"))
+                if any(m[1:2] == "P" and not m[-1].isdigit() for m in k):
+                    ctx.count("stage1_proof_kernel_with_capture_promotion")
+                if sum(1 for m in k if m[1:2] == "P" and not m[-1].isdigit()) >= 2:
+                    ctx.count("stage1_proof_kernel_with_2plus_capture_promotions")
+                if data.get("extKernel"):
+                    ctx.count("stage1_ext_kernel_csp_ran")
+                    if any(m[-1] in "QRBN" and "-" in m for m in data["extKernel"]):
+                        ctx.count("stage1_ext_kernel_with_straight_promotion")
+            if kind == "illegal" and data.get("illegal") in (["No", "proof", "kernel"], ["No", "extended", "proof", "kernel"]):
+                ctx.count("stage1_proof_kernel_search_ran")
             if data is None and note != "timeout":
                 problems.append(("texelutil proofgame -f crashed on a reachable position: " + note,
                                  {"fen": fen, "moves": games[gi].moves[:i]}, "crash:" + fen_key(fen)))
@@ -664,7 +811,11 @@ def run(ctx):
     order = list(range(len(games)))
     rng.shuffle(order)
     # prefer variety: games with special moves first
-    order.sort(key=lambda gi: -len(set(games[gi].flags) & set("pceEm")))
+    def variety(gi):
+        st = game_stats(games[gi])
+        return -(len(set(games[gi].flags) & set("pceEm")) + 2 * min(2, st["capprom_w"] + st["capprom_b"]) +
+                 (2 if st["capprom_w"] and st["capprom_b"] else 0) + min(2, st["prom_w"] + st["prom_b"]))
+    order.sort(key=variety)
     deep = order[:n_deep]
     workdir = tempfile.mkdtemp(prefix="c16-", dir=os.path.join(CACHE))
     try:
